@@ -48,9 +48,9 @@ Ltac inv_some :=
    projection applied to a chain of setters *)
 Ltac cbn_st :=
   cbn [hmap next_hid hpub pending ptaker amu smu refs sem latest lsrc pubhead lastRecv lastTaken
-       events hooks ehooks gtodo goal panicked ordered regress nexp next_tid threads
+       events hooks ehooks gtodo goal closing panicked ordered regress nexp next_tid threads
        set_hmap set_next_hid set_hpub set_pending set_ptaker set_amu set_smu set_refs set_sem
-       set_latest set_lsrc set_pubhead set_lastRecv set_lastTaken set_events set_hooks set_ehooks set_gtodo
+       set_latest set_lsrc set_pubhead set_lastRecv set_lastTaken set_events set_hooks set_ehooks set_closing set_gtodo
        set_goal set_panicked set_ordered set_regress set_nexp set_next_tid set_threads put
        t_kind t_pc t_pub t_h t_msg t_stop t_ok t_todo mk_thread set_pc set_h set_msg set_stop set_ok set_todo
        lockfix reffix fixed exit_pc exit_locked exit_unlocked is_explicit is_entries] in *.
@@ -62,7 +62,7 @@ Ltac step_inv H :=
     let Hs := fresh "Hs" in
     destruct (stepo fixed cap s l) as [[? ?]|] eqn:Hs; [|discriminate H];
     inversion H; subst; clear H;
-    destruct l as [p|p c|p|p n|p removed|p c|t ok]; cbn [stepo] in Hs;
+    destruct l as [p|p c|p|p n|p removed| |p c|t ok]; cbn [stepo] in Hs;
     [ inv_some
     | destruct (threads s watcher_tid) as [th|] eqn:Hth; [|discriminate Hs];
       destruct (t_pc th) eqn:Hpc; try discriminate Hs;
@@ -73,6 +73,7 @@ Ltac step_inv H :=
       [ cbn [reffix fixed andb] in Hs; destruct (refs s h) as [|r0 rr] eqn:Hrefs; cbn [is_nil negb] in Hs;
         destruct removed; try discriminate Hs; inv_some
       | destruct removed; try discriminate Hs; inv_some ]
+    | destruct (closing s) eqn:Hclosing; [discriminate Hs|]; inv_some
     | inv_some
     | destruct (threads s t) as [th|] eqn:Hth; [|discriminate Hs];
       unfold step_thread in Hs;
@@ -604,6 +605,40 @@ Proof.
   intros R Hc Hn Hl. eapply async_bounded_by_cap; eauto.
   intros t Ht. destruct (Hl _ Ht) as (th & X1 & X2 & X3). exists th. split_all; auto.
   destruct (t_pc th); cbn in *; congruence.
+Qed.
+
+(* the counting form, in every reachable state -- before, while and after Subscriber.Close
+   has closed s.closing (label CloseBegin; no goroutine's semaphore wait reads it): the number
+   of announce-triggered goroutines past the semaphore, hence of announce-triggered syncs
+   running at once, is at most MaxAsyncConcurrency *)
+Lemma permits_in_use_spec s t :
+  In t (permits_in_use s) ->
+  exists th, threads s t = Some th /\ is_async (t_kind th) = true /\ has_permit (t_pc th) = true.
+Proof.
+  unfold permits_in_use. intro H. apply filter_In in H. destruct H as [_ H].
+  destruct (threads s t) as [th|]; [|discriminate]. exists th. split; [reflexivity|].
+  destruct (t_kind th); try discriminate. auto.
+Qed.
+
+Theorem async_syncs_bounded cap s :
+  reach fixed cap s -> cap <> 0 -> List.length (permits_in_use s) <= cap.
+Proof.
+  intros R Hc. apply (async_bounded_by_cap cap s); auto.
+  - unfold permits_in_use. apply NoDup_filter. apply seq_NoDup.
+  - intros t Ht. apply permits_in_use_spec. exact Ht.
+Qed.
+
+Corollary async_sessions_running_bounded cap s :
+  reach fixed cap s -> cap <> 0 ->
+  List.length (filter (fun t => match threads s t with
+                                | Some th => is_async (t_kind th) && in_session (t_pc th)
+                                | None => false end) (seq 0 (next_tid s))) <= cap.
+Proof.
+  intros R Hc. apply (async_sessions_bounded_by_cap cap s); auto.
+  - apply NoDup_filter. apply seq_NoDup.
+  - intros t Ht. apply filter_In in Ht. destruct Ht as [_ Ht].
+    destruct (threads s t) as [th|]; [|discriminate]. exists th.
+    apply andb_prop in Ht. destruct Ht. auto.
 Qed.
 
 (* pending <> nil  <->  exactly one goroutine of that handler (or the watcher about to
